@@ -2,7 +2,7 @@
     extracted inductives (positive, N, Z, Q). *)
 From Coq Require Import Extraction ExtrOcamlBasic.
 From Coq Require Import List NArith ZArith QArith.
-From JS Require Import Str Lit Json Res GoValue Equal Hash Schema Pointer CodecBase Codec Basic Env Ann Validate Spec Uri Resolve Defaults GoType Encode Infer C04Main Domain Verdict Decode.
+From JS Require Import Str Lit Json Res GoValue Equal Hash Schema Pointer CodecBase Codec Basic Env Ann Validate Spec Uri Resolve Defaults GoType Encode Infer C04Main Domain Verdict Decode NoPanic Terminates.
 Extraction Language OCaml.
 Extraction "model.ml"
   str_eqb str_cmp sort_strs lit json_eqb den canon strip gv_wf equalValue hash_stream jsonType jsonNumber
@@ -11,5 +11,6 @@ Extraction "model.ml"
   parse_uri resolve_reference uri_string decode_fragment utf8_encode utf8_decode drop_frag is_abs empty_uri
   JS.res.Resolve.Resolve JS.val.Validate.Validate validate empty_schema is_zero_schema
   spec_valid spec_eval all_setters isValidSchemaVersion ApplyDefaults validateDefaults
+  rank_auto
   ForType encode json_fields visible_fields dom conforms str_schema decodes nostd in_i64 json_wf
   Z.add Z.mul Z.opp Z.of_nat N.of_nat Z.to_nat N.to_nat Z.of_N Pos.of_nat Qred.
